@@ -661,7 +661,7 @@ fire("c11_errors_not_raised", "C11", [(TYPING, "    if incorrect_fields:\n      
 fire("c11_mutable_prop_accepted", "C11", [(TYPING, "            if is_valid_property_type(ftype):\n                props[f] = get_type_info(ftype)\n            else:\n                incorrect_fields.append((f.name, \"A mutable collection in type\", ftype))", "            props[f] = get_type_info(ftype)")], "R-ONE-LANDING")
 fire("c11_sibling_polarity", "C11", [(TYPING, "                if res != InvalidTypeReason.OK:\n                    incorrect_fields.append((field_name, res.value, field_type))", "                if res == InvalidTypeReason.OK:\n                    incorrect_fields.append((field_name, res.value, field_type))")], "R-CLASSIFY-SIBLING")
 fire("c11_no_definition_check", "C11", [(NODE, "        if not check_annotations(cls, ASTNode) and config.TRACE_LOGGING:", "        if config.TRACE_LOGGING:")], "R-CLASSIFY-SIBLING")
-silent("c11_equivalent", "C11", [(TYPING, "            if res == InvalidTypeReason.OK:\n                child_fields[f] = get_type_info(ftype)\n            else:\n                incorrect_fields.append((f.name, res.value, ftype))", "            if res != InvalidTypeReason.OK:\n                incorrect_fields.append((f.name, res.value, ftype))\n            else:\n                child_fields[f] = get_type_info(ftype)")])
+silent("c11_equivalent", "C11", [(TYPING, "                child_fields[f] = FieldTypeInfo(is_tuple(ftype), ftype)\n            else:\n                incorrect_fields.append((f.name, res.value, ftype))", "                child_fields[f] = FieldTypeInfo(is_tuple(ftype), ftype)\n            elif True:\n                incorrect_fields.append((f.name, res.value, ftype))")])
 
 # ---------------------------------------------------------------- C20
 fire("c20_F20_reverted", "C20", [(LXPATH, '        return int("".join(args))\n', "        return int(args[0])\n")], "R-GRAM-ARITY")
@@ -706,3 +706,55 @@ fire("c19_replace_with_effect_before_check", "C19", [(LNODE, "            # Chec
 fire("c19_transform_detaches_first", "C19", [(LNODE, "            orig_node = node\n            node = node.duplicate(as_detached_clone=True)\n", "            orig_node = node\n            node = node.duplicate(as_detached_clone=True)\n            orig_node.detach()\n")], "R-LEG-ROLLBACK")
 fire("c19_replace_narrow_except", "C19", [(LNODE, "                **changes,\n            )\n        except Exception as e:", "                **changes,\n            )\n        except ASTNodeParentCollisionError as e:")], "R-LEG-ROLLBACK")
 silent("c19_logging_added", "C19", [(LNODE, "        # remember the parent\n        cur_parent = self.parent\n        cur_parent_field = self.parent_field\n        cur_parent_index = self.parent_index\n        if cur_parent is not None:\n            # If we have a parent, we need to clear it first,", "        # remember the parent\n        cur_parent = self.parent\n        cur_parent_field = self.parent_field\n        cur_parent_index = self.parent_index\n        logger.debug(\"remembered parent\")\n        if cur_parent is not None:\n            # If we have a parent, we need to clear it first,")])
+
+# ---------------------------------------------------------------- later additions (seeded changes, F22-F24)
+fire("c13_F22_reverted", "C13", [(TYPING, '''    if is_union(type_):
+        # Check the members one by one. isinstance() accepts `X | Y` unions directly,
+        # which would let a bool through for `int | None` (but not for Optional[int])
+        return any(is_instance(value, t) for t in get_args(type_))
+
+''', "")], "R-UNION-FIRST")
+fire("c11_F24_reverted", ["C11", "C05", "C12"], [(TYPING, "                child_fields[f] = FieldTypeInfo(is_tuple(ftype), ftype)", "                child_fields[f] = get_type_info(ftype)")], "R-CHILD-KIND")
+fire("c16_F23_reverted", "C16", [(NODE, '''            if not self._get_serialization_options().get(SerializationOption.SKIP_CLASS, False):
+                # No type tags at any level when they are suppressed
+                source_stub = {TYPE_KEY: "Source", **source_stub}
+''', '''            source_stub = {TYPE_KEY: "Source", **source_stub}
+''')], "R-TAG-FIRST")
+fire("c16_stub_unsorted", "C16", [(NODE, 'source_stub: dict[str, Any] = {"source_type": "", "source_uri": ""}', 'source_stub: dict[str, Any] = {"source_uri": "", "source_type": ""}')], "R-SORTED-OVERRIDE")
+fire("c16_shadow_reset", "C16", [(SER, '''            ret = cls._deserialize(value)
+        finally:
+            # Clear the kwargs and dialect
+            DataClassSerializeMixin.__serialization_options = {}
+            DataClassSerializeMixin.__mashumaro_dialect = None''', '''            ret = cls._deserialize(value)
+        finally:
+            # Clear the kwargs and dialect
+            cls.__serialization_options = {}
+            cls.__mashumaro_dialect = None''')], "R-OPT-PAIR")
+fire("c07_anywhere_rebuild_loses_index", ["C07", "C17"], [(XPATH, '''                # Change last element to anywhere
+                ret[-1] = ASTXpathElement(
+                    ret[-1].ast_class, ret[-1].parent_field, ret[-1].parent_index, True
+                )
+
+                parent_field, parent_index, ast_class = next_el''', '''                # Change last element to anywhere
+                ret[-1] = ASTXpathElement(
+                    ret[-1].ast_class, ret[-1].parent_field, parent_index, True
+                )
+
+                parent_field, parent_index, ast_class = next_el''')], "R-XP-ELEMENTS")
+fire("c07_fold_once_only", ["C07", "C17"], [(XPATH, "            while ast_class is None:\n                next_el = next(elements, None)", "            if ast_class is None:\n                next_el = next(elements, None)")], "R-XP-ELEMENTS")
+fire("c07_worklist_not_a_set", "C07", [(XPATH, "            new_work: dict[_NodeTraversalInfo | NodeTraversalInfo, None] = {}\n", "            new_work: list = []\n"),
+                                        (XPATH, "                            if c_info not in new_work:\n                                new_work[c_info] = None\n                else:", "                            new_work.append(c_info)\n                else:"),
+                                        (XPATH, "                            if c_info not in new_work:\n                                new_work[c_info] = None\n            work = new_work", "                            new_work.append(c_info)\n            work = new_work"),
+                                        (XPATH, "        yield from [n_info.node for n_info in new_work.keys()]", "        yield from [n_info.node for n_info in new_work]")], "R-XP-ONCE")
+fire("c17_memoised_type_lookup", "C17", [("src/pyoak/match/helpers.py", "def check_and_get_ast_node_type(", "from functools import lru_cache\n\n\n@lru_cache(maxsize=None)\ndef check_and_get_ast_node_type(")], "R-NO-MEMO")
+fire("c12_base_cache_shared", ["C12", "C11"], [("src/pyoak/types.py", "    _TYPE_TO_CHILD_FIELDS[cls], _TYPE_TO_PROPS[cls] = process_node_fields(cls, ASTNode)\n", "    base = cls.__mro__[1]\n    if base in _TYPE_TO_ALL_FIELDS and cls.__dataclass_fields__.keys() == base.__dataclass_fields__.keys():\n        _TYPE_TO_CHILD_FIELDS[cls] = _TYPE_TO_CHILD_FIELDS[base]\n        _TYPE_TO_PROPS[cls] = _TYPE_TO_PROPS[base]\n        _TYPE_TO_ALL_FIELDS[cls] = _TYPE_TO_ALL_FIELDS[base]\n        return\n    _TYPE_TO_CHILD_FIELDS[cls], _TYPE_TO_PROPS[cls] = process_node_fields(cls, ASTNode)\n")], "R-TYPES-CACHE")
+fire("c11_optional_last_member", "C11", [(TYPING, "    args = get_args(type_)\n    return any(a is type(None) for a in args)\n", "    return get_args(type_)[-1] is type(None)\n")], "R-QUANTIFY-ALL")
+fire("c11_property_first_member_only", "C11", [(TYPING, "    if is_union(type_):\n        return all(is_valid_property_type(t) for t in get_args(type_))\n", "    if is_union(type_):\n        return is_valid_property_type(next(t for t in get_args(type_) if t is not type(None)))\n")], "R-QUANTIFY-ALL")
+fire("c19_transform_no_clone_for_subtrees", "C19", [(LNODE, "        if not node.detached:\n            orig_node = node\n            node = node.duplicate(as_detached_clone=True)", "        if node.is_attached_root:\n            orig_node = node\n            node = node.duplicate(as_detached_clone=True)")], "R-LEG-CLONE")
+fire("c20_match_head_drops_anywhere", "C20", [(LXPATH, "        if len(elements) == 0 or isinstance(elements[0], ASTXpathAnywhereElement):\n            return True\n        else:\n            return False", "        return len(elements) == 0")], "R-XP-ANYWHERE")
+fire("c20_set_xpath_early_return", ["C20", "C18"], [(LNODE, '    object.__setattr__(node, "_xpath", xpath)\n\n    for child in node.get_child_nodes():', '    if node.xpath == xpath:\n        return\n\n    object.__setattr__(node, "_xpath", xpath)\n\n    for child in node.get_child_nodes():')], "R-LEG-XPATH-SPELL")
+fire("c20_ensure_iterable_truthiness", ["C20", "C18"], [(LNODE, "        if value is None:\n            return []\n        if isinstance(value, (list, tuple)):", "        if not value:\n            return []\n        if isinstance(value, (list, tuple)):")], "R-PRESENCE")
+fire("c05_gather_dedup_by_id", "C05", [(NODE, "        for n_info in self.dfs(prune=prune, filter=filter_fn, bottom_up=False):\n            yield cast(ASTNodeType, n_info.node)", "        seen: set[str] = set()\n        for n_info in self.dfs(prune=prune, filter=filter_fn, bottom_up=False):\n            if n_info.node.id not in seen:\n                seen.add(n_info.node.id)\n                yield cast(ASTNodeType, n_info.node)")], "R-GATHER")
+fire("c16_sorted_keys_cached_per_class", "C16", [(SER, "            for k, v in sorted(d.items(), key=itemgetter(0)):\n                out[k] = v", "            keys = _SORTED.setdefault(self.__class__, tuple(sorted(d)))\n            for k in keys:\n                if k in d:\n                    out[k] = d[k]"), (SER, 'TYPE_KEY = "__type"\n', 'TYPE_KEY = "__type"\n_SORTED: dict = {}\n')], "R-SORTED")
+fire("c15_hull_by_ordering_starts", "C15", [(ORIGIN, "        return CodeRange(start=min(self.start, other.start), end=max(self.end, other.end))", "        first, second = (self, other) if self.start <= other.start else (other, self)\n\n        return CodeRange(start=first.start, end=second.end)")], "R-INTERVAL-LAWS")
+silent("c16_sorted_keys_equivalent", "C16", [(SER, "            for k, v in sorted(d.items(), key=itemgetter(0)):\n                out[k] = v", "            for k in sorted(d):\n                out[k] = d[k]")])
